@@ -179,6 +179,11 @@ def strIn (x : Text) : Text → Bool
   | [] => x.isEmpty
   | c :: s => x.isPrefixOf (c :: s) || strIn x s
 
+/-- reading an attribute of `self` that `__init__` does not set: AttributeError while it is unset -/
+def attrGet {α} : Option α → PyM α
+  | some a => .ok a
+  | none => .error .AttributeError
+
 /-- `s.startswith(p)` / `s.endswith(p)` for two `str` -/
 def startswith (s p : Text) : Bool := p.isPrefixOf s
 def endswith (s p : Text) : Bool := p.isSuffixOf s
